@@ -95,18 +95,18 @@ Proof. split; vm_compute; reflexivity. Qed.
    without blank or backslash (not starting with a dash), every heading and every content line given as plain or escaped
    characters ([text_units]), in any context (pre, rest): rule hier_element reads `KEYWORD num - heading`, the indent, the line
    and the dedent as one element, and to_dict gives the hier node with the keyword's element name, that num, that heading and
-   one paragraph holding the line (Proofs/HierElement.v). *)
-Theorem C04_hier_element_yields_hier_node : forall f f' pre kw n uh ul rest rest' o6 td,
+   one paragraph holding the line - with any number b of blank lines between the keyword line and the content (Proofs/HierElement.v). *)
+Theorem C04_hier_element_yields_hier_node : forall f f' pre kw n uh b ul rest rest' o6 td,
   In kw hier_keywords -> num_ok n -> text_units uh -> text_units ul ->
   (match encode uh with c :: _ => c <> 32 | [] => True end) ->
   let L := encode ul ++ NL :: 15 :: NL :: rest in
   none_starts block_lits L = true -> p_safe L = true -> starts_with SUBH L = false -> no_ctl_start (encode ul) = true ->
   let off := len_N pre in
-  let o5' := off + len_N kw + 1 + len_N n + 3 + len_N (encode uh) + 1 + 2 + len_N (encode ul) + 1 in
+  let o5' := off + len_N kw + 1 + len_N n + 3 + len_N (encode uh) + 1 + N.of_nat b + 2 + len_N (encode ul) + 1 in
   run akn_peg (8 + (25 + f)) (Ref (of_string "dedent")) (15 :: NL :: rest) o5' = Ok rest' o6 td -> o5' < o6 ->
   exists tree hds lds,
-    run akn_peg (40 + f) (Ref (of_string "hier_element")) (hier_text kw n uh ul rest) off = Ok rest' o6 tree
-    /\ to_dict (pre ++ hier_text kw n uh ul rest) (3 + f') tree = OkR (hier_dnode kw n hds lds)
+    run akn_peg (40 + f) (Ref (of_string "hier_element")) (hier_text kw n uh b ul rest) off = Ok rest' o6 tree
+    /\ to_dict (pre ++ hier_text kw n uh b ul rest) (3 + f') tree = OkR (hier_dnode kw n hds lds)
     /\ Forall is_dtext hds /\ concat (map dval hds) = decode uh
     /\ Forall is_dtext lds /\ concat (map dval lds) = decode ul
     /\ is_root tree = false.
@@ -150,6 +150,23 @@ Theorem C04_hier_element_converts_units : forall uri prefix kw n uh ut k root_me
   = OkR (hier_x tag [(EID, cand)] [(EID, cand ++ DUSCORE ++ P1)] n (decode uh) (decode ut)).
 Proof. exact hier_element_converts_units. Qed.
 Print Assumptions C04_hier_element_converts_units.
+
+(* ... and with any number b of blank lines between the keyword line and its content: the document is the same *)
+Theorem C04_hier_element_converts_blank_lines : forall uri prefix kw n uh ut k b root_meta att_meta,
+  assoc_str uri meta_templates = Some (root_meta, att_meta) ->
+  In kw hier_keywords ->
+  num_ok n -> Forall (fun c => c <> TAB) n -> clean_num n <> [] -> valid_text n = true ->
+  written_text uh -> written_text ut ->
+  let L := encode ut ++ NL :: 15 :: [NL] in
+  none_starts block_lits L = true -> p_safe L = true -> starts_with SUBH L = false -> no_ctl_start (encode ut) = true ->
+  (1 <= k)%nat ->
+  let tag := hier_name kw in
+  let cand := candidate prefix tag (clean_num n) in
+  convert uri (of_string "hier_element") prefix
+          (kw ++ 32 :: n ++ 32 :: 45 :: 32 :: encode uh ++ NL :: repeat NL b ++ repeat SP k ++ encode ut ++ [NL])
+  = OkR (hier_x tag [(EID, cand)] [(EID, cand ++ DUSCORE ++ P1)] n (decode uh) (decode ut)).
+Proof. exact hier_element_converts_units_b. Qed.
+Print Assumptions C04_hier_element_converts_blank_lines.
 
 (* the instance the theorem predicts, evaluated: a synonym keyword, a num with punctuation, three blanks of indentation *)
 Example C04_hier_element_converts_example :
